@@ -1,7 +1,8 @@
 (* C07 — the statements exported by Properties.v, derived from the invariants. *)
 From Coq Require Import List ZArith Bool Arith Lia Permutation.
 From Verif Require Import C07.Model C07.Spec C07.Proofs_Res C07.Proofs_Ledger C07.Proofs_View
-  C07.Proofs_Alloc C07.Proofs_Allocate C07.Proofs_State C07.Proofs_Inv C07.Proofs_Main.
+  C07.Proofs_Alloc C07.Proofs_Allocate C07.Proofs_State C07.Proofs_Inv C07.Proofs_Preempt
+  C07.Proofs_Main.
 Import ListNotations.
 Open Scope Z_scope.
 
@@ -81,6 +82,42 @@ Lemma alloc_complete_all ops rq code :
       existsb (fun t => alloc_short_t (ledgers (exec ops)) (infos (exec ops)) t rq) type_ids = true).
 Proof.
   intros H A. eapply allocate_fail; eauto. intros t. now apply reachable_lgood.
+Qed.
+
+(* the preemption dry-run, on any reachable state *)
+Lemma preempt_sound_all ops rq t per count sh victims al :
+  forallb op_wf ops = true -> treq_of rq t = TReq per count sh ->
+  alloc_type_on (ledgers (exec ops)) (infos (exec ops)) t per count sh victims = Some al ->
+  (desired_count count <=
+   maybe_count (preempt_ledger (ledger_of (ledgers (exec ops)) t) victims)
+               (minors_of (infos (exec ops)) t) per)%nat.
+Proof.
+  intros H E A. apply treq_spec in E as [Hc _].
+  eapply alloc_type_on_sound; eauto. now apply reachable_lgood.
+Qed.
+Lemma preempt_complete_all ops rq t per count sh victims :
+  forallb op_wf ops = true -> treq_of rq t = TReq per count sh ->
+  alloc_type_on (ledgers (exec ops)) (infos (exec ops)) t per count sh victims = None ->
+  (eligible_count (preempt_ledger (ledger_of (ledgers (exec ops)) t) victims)
+                  (minors_of (infos (exec ops)) t) per < desired_count count)%nat.
+Proof.
+  intros H E A. apply treq_spec in E as [Hc _].
+  eapply alloc_type_on_complete; eauto. now apply reachable_lgood.
+Qed.
+Lemma preempt_free_all ops t victims m k :
+  forallb op_wf ops = true ->
+  let l := ledger_of (ledgers (exec ops)) t in
+  dval (free (preempt_ledger l victims)) m k =
+  Z.max 0 (dval (total l) m k
+           - Z.max 0 (dval (used l) m k - sumZ (map (victim_val l m k) victims))).
+Proof.
+  intros H l. pose proof (reachable_lgood ops t H) as G. fold l in G.
+  cbn [preempt_ledger free]. rewrite calc_free_val; auto.
+  - now rewrite preempt_of_val.
+  - apply G.
+  - apply G.
+  - now apply lgood_used_nonneg.
+  - now apply preempt_of_nonneg.
 Qed.
 
 (* what alloc_sound_t says, as a Prop *)
